@@ -137,6 +137,35 @@ def retjump_soup(rng, n):
     return prog
 
 
+def prelude_stress(rng, n=150):
+    """a long straight-line program (no areas, never selecting stack 1 or 2) built from small blocks:
+    select stack 0 / 3 / 4, pop-and-print a few values (refilling stack 0 from standard input line by
+    line), push constants, manufacture NaN on the selected stack (1/0, or popping it empty), move values
+    between stacks.  One compilation exercises the emitted run-time support (push / pop / refill / NaN
+    rule) on hundreds of operation sequences; a divergence shows in what gets printed afterwards."""
+    prog = []
+    while len(prog) < n:
+        r = rng.random()
+        if r < 0.2:
+            prog.append(C(5, 1, rng.choice([0, 0, 0, 3, 4])))
+        elif r < 0.45:
+            prog += [C(1, 1, 1) for _ in range(rng.randint(1, 3))]                          # pop and print
+        elif r < 0.6:
+            prog += [C(0, rng.choice([1, 2, 48, 65, 97]), 1) for _ in range(rng.randint(1, 2))]
+        elif r < 0.78:
+            prog += [C(0, 1, 0), C(4, 1, rng.choice([3, 4, 4]))]                             # 1/0: NaN onto the selected stack
+        elif r < 0.88:
+            prog.append(C(1, rng.choice([1, 2]), rng.choice([0, 3, 4])))                     # move / add
+        elif r < 0.94:
+            prog.append(C(rng.choice([2, 3]), rng.choice([1, 2]), rng.choice([1, 3, 4])))
+        else:
+            prog += [C(1, 1, 4) for _ in range(rng.randint(2, 4))]                           # drain towards stack 4
+    return prog
+
+
+PRELUDE_INPUT = "a\nbc\nd\n\nef\ng\nh\nij\nk\nl\nm\nn\no\np"
+
+
 def fwdjump_family(rng):
     """a loop whose second pass takes a conditional jump FORWARD to a label registered further down on the
     first pass (jumps may lead to any command already seen, not only backwards)"""
@@ -212,6 +241,8 @@ def gen_cases(rng, n, flavor="mixed"):
         (print_cps([0x10000, 0x41]) + [C(5, 1, 0), C(1, 1, 1), C(5, 1, 3)] + print_cps([0x1F600], 2) + print_cps([0x80]), "é\n"),
         ([C(5, 1, 0), C(1, 1, 1), C(5, 1, 3)] + print_cps([0x10FFFF, 0x800, 0x7FF]), "\U00010000"),
         (print_cps([0xE9], 2) + print_cps([0xE9, 0xFF, 0x100]), ""),
+        # a lot of output from one command (copies of a 3-byte character): sizes around 1 KiB and 4 KiB
+        (push_value(0xAC00) + [C(5, 342, 1)], ""),
         # fractions and negatives printed, NaN printed, multi-operand restore
         ([C(0, 1, 2), C(4, 1, 3), C(0, 1, 3), C(2, 2, 3), C(3, 1, 1), C(1, 1, 1)], ""),
         ([C(0, 1, 1), C(0, 1, 2), C(0, 1, 3), C(3, 3, 4), C(4, 3, 5), C(1, 1, 1), C(1, 1, 1), C(1, 1, 1), C(1, 1, 1)], ""),
@@ -308,6 +339,8 @@ def split_trace(path, parts):
         cur.append(l)
     if cur:
         groups.append(cur)
+    # a trace file is read by TLC in one piece: keep every part below ~40k lines
+    parts = max(parts, (len(lines) + 39999) // 40000)
     parts = max(1, min(parts, len(groups)))
     files = []
     for i in range(parts):
@@ -334,9 +367,13 @@ def sharded(cases_path, work, argv_of, shards=8):
         open(inp, "w").write("\n".join(part) + "\n")
         procs.append(subprocess.Popen(argv_of(inp, out, os.path.join(work, "w%d" % i))))
         outs.append(out)
-    for p in procs:
+    for k, p in enumerate(procs):
         if p.wait() != 0:
-            raise ToolError("hv-exec failed")
+            # once more, alone (an overloaded machine can fail to spawn threads)
+            i = k
+            r = subprocess.run(argv_of(os.path.join(work, "in%d.json" % i), outs[i], os.path.join(work, "w%d" % i)))
+            if r.returncode != 0:
+                raise ToolError("hv-exec failed")
     trace = os.path.join(work, "trace.ndjson")
     with open(trace, "w") as f:
         for o in outs:
@@ -501,25 +538,31 @@ def check_c01(pid, tier, seed, replay):
         return do_replay_machine(ck, replay)
     quick = tier == "quick"
     rng = random.Random(seed)
-    plan = [("arith", 3, 8), ("control", 3, 12), ("io", 2, 8), ("io3", 3, 10)] if quick else \
-           [("arith", 3, 12), ("control", 4, 14), ("io", 3, 12)]
+    plan = [("arithq", 3, 8), ("controlq", 3, 12), ("io", 2, 8), ("io3", 3, 10)] if quick else \
+           [("arith", 3, 12), ("control", 3, 14), ("controlq", 4, 14), ("io", 3, 12)]
     for slice_, ml, steps in plan:
         cases, n = mc_machine(ck, slice_, ml, steps)
+        if n > 600000:
+            # the widest thorough slices are replayed as a seeded sample (stated in the evidence)
+            keep = sample_lines(cases, 600000, rng)
+            open(cases, "w").write("\n".join(keep) + "\n")
+            ck.cov["vacuity"]["R_%s_sampled_of" % slice_] = [len(keep), n]
+            ck.cov["sampled_slices"] = ck.cov.get("sampled_slices", 0) + 1
         # (R) every explored behaviour, command by command, through execute_one
         trace = run_steps(ck, cases, slice_, maxsteps=steps + 6)
         validate_traces(ck, trace, 14, classify_c01, "R-%s" % slice_)
         if ck.enough():
             return ck.finish()
-        ck.cov["exhaustive"] = True
+        ck.cov["exhaustive"] = not ck.cov.get("sampled_slices")
         # the same behaviours through the real binary (whole-run observation), a seeded sample
         sub = os.path.join(os.path.dirname(cases), "bin_cases.json")
-        open(sub, "w").write("\n".join(sample_lines(cases, 1200 if quick else 20000, rng)) + "\n")
+        open(sub, "w").write("\n".join(sample_lines(cases, 600 if quick else 20000, rng)) + "\n")
         obs = run_obs(ck, sub, slice_, levels="0", bound=steps + 6, timeout_ms=2000)
         validate_traces(ck, obs, 8, classify_c01, "R-bin-%s" % slice_)
         with open(cases) as f:
             ck.sample(prog_text(json.loads(f.readline())["prog"]))
     # (T) structured random programs far beyond the enumeration bound
-    tcases = gen_cases(rng, 300 if quick else 6000)
+    tcases = gen_cases(rng, 220 if quick else 6000)
     work = tmpdir("c01_T")
     cpath = os.path.join(work, "cases.json")
     write_cases(cpath, tcases)
